@@ -43,6 +43,8 @@ class AbstractCsrGraphFactory(GraphFactory[OntologyGraph], metaclass=abc.ABCMeta
     def create_graph(self, edge_list: typing.Sequence[DirectedEdge]) -> GRAPH:
         # Find root node
         self._logger.debug('Creating ontology graph from %d edges', len(edge_list))
+        # Repeated edges carry no information but would be stored repeatedly.
+        edge_list = list(dict.fromkeys(map(tuple, edge_list)))
         root, edge_list = _phenol_find_root(edge_list)
         self._logger.debug('Found root %s', root.value)
 
@@ -104,6 +106,8 @@ class CsrIndexedGraphFactory(GraphFactory[IndexedOntologyGraph]):
     def create_graph(self, edge_list: typing.Sequence[DirectedEdge]) -> GRAPH:
         # Find root node
         self._logger.debug('Creating ontology graph from %d edges', len(edge_list))
+        # Repeated edges carry no information but would be stored repeatedly.
+        edge_list = list(dict.fromkeys(map(tuple, edge_list)))
         root, edge_list = _phenol_find_root(edge_list)
         self._logger.debug('Found root %s', root.value)
 
